@@ -169,6 +169,22 @@ def classify(s, F):
     with the model, the original does not."""
     if s["old"] is None:
         return None
+    # Known mechanism F17: defaultdict values that differ only in their default_factory are equal
+    # for Python (`defaultdict(dict, {}) == defaultdict(list, {})`), but the factory argument is
+    # compared on its own and the difference reported as `fix`.  Counterfactual: with every
+    # default_factory neutralised (None) on both sides the site agrees with the model.
+    import re
+
+    fac = re.compile(r"defaultdict\(\s*(list|int|dict|None)\s*,")
+    if fac.search(s["old"]) and any(fac.search(str(o)) for o in (s["obs"] if s["op"] != "getitem" else [v for _, v in s["obs"]])):
+        neutral = lambda t: fac.sub("defaultdict(None,", t)  # noqa
+        if s["op"] == "getitem":
+            obs2 = [(k, neutral(v)) for k, v in s["obs"]]
+        else:
+            obs2 = [neutral(o) for o in s["obs"]]
+        s3 = dict(s, old=neutral(s["old"]), obs=obs2, place="loop")
+        if check_site(dict(s, place="loop"), F) and not check_site(s3, F):
+            return "F17-defaultdict-factory-difference-flagged-fix"
     try:
         kw_text, n = positional_to_keywords(s["old"])
     except SyntaxError:
@@ -202,6 +218,14 @@ def run_shard(args):
     for c in range(ncases):
         rng = random.Random(f"{args.seed}/{PROP}/{args.shard}/{c}")
         sites = [make_site(rng, i, 2) for i in range(rng.randint(5, 9))]
+        if c == 0 and args.shard == 0:
+            # the witnesses of the recorded findings are part of every run (KNOWN-FINDING lines are printed
+            # for as long as the defects exist; a repaired defect simply stops producing them)
+            sites = [
+                {"id": 0, "op": "eq", "place": "loop", "old": "DC(-1, 2)", "obs": ["DC(a=-1, b=2)"], "sig": "F13-witness", "missing": False},
+                {"id": 1, "op": "eq", "place": "loop", "old": "defaultdict(list, {})", "obs": ["defaultdict(dict, {})"], "sig": "F17-witness", "missing": False},
+                {"id": 2, "op": "eq", "place": "loop", "old": "NT(1, 2)", "obs": ["NT(a=1, b=2)"], "sig": "F13-witness-nt", "missing": False},
+            ]
         src, order = program.build(sites, style="rec", tests=rng.randint(1, 3))
         files = {"test_a.py": src}
         by_id = {s["id"]: s for s in sites}
